@@ -74,6 +74,9 @@ def absfun(name, args, out_n):
 
     def vjp(g):
         outs = []
+        if g.kind == "sc" and isinstance(out_n, int) and out_n == 1:
+            # cotangent of a one-element output given as a plain scalar: coefficient times the unit of that 1-vector
+            g = st.Tensor("vec", alg.Vec({alg.base_atom("unit1"): g.v}), (1,), g.dtype, (0,))
         for i, a in tens:
             if not a.requires_grad:
                 outs.append(None)
